@@ -294,13 +294,27 @@ impl Collect for Rec {
         self.level.store(rank(m.level()), Relaxed);
         self.target_h.store(sh(m.target()), Relaxed);
         self.is_span_kind.store(m.is_span(), Relaxed);
+        // straight-line (no loop: the harness unwind bound is kept at the minimum the real
+        // code needs, see `b_arm`)
+        let mut it = m.fields().iter();
         let mut k = 0;
-        for f in m.fields().iter() {
-            if k < MAXF {
-                self.field_h[k].store(sh(f.name()), Relaxed);
-            }
-            k += 1;
+        macro_rules! one {
+            () => {
+                if let Some(f) = it.next() {
+                    if k < MAXF {
+                        self.field_h[k].store(sh(f.name()), Relaxed);
+                    }
+                    k += 1;
+                }
+            };
         }
+        one!();
+        one!();
+        one!();
+        one!();
+        one!();
+        one!();
+        assert!(it.next().is_none());
         self.nfields.store(k, Relaxed);
         let mut vis = Vis { event: false };
         a.record(&mut vis);
@@ -405,10 +419,13 @@ fn b_init() {
 /// now in the real (dispatcher-less) registry with cached interest `never`; overwrite the
 /// cache through the real setter with a symbolic non-never interest.
 fn b_arm(expected_callsites: usize) -> bool {
+    b_arm_with(expected_callsites, kani::any())
+}
+
+fn b_arm_with(expected_callsites: usize, always: bool) -> bool {
     let mut n = 0usize;
     v::for_each_registered_callsite(|_| n += 1);
     assert!(n == expected_callsites);
-    let always: bool = kani::any();
     v::for_each_registered_callsite(|c| {
         c.set_interest(if always { Interest::always() } else { Interest::sometimes() })
     });
@@ -442,14 +459,23 @@ fn check_span(w: &Want, vals: &[(u8, u64)], enters: usize, effects: usize) {
     assert!(REC.target_h.load(Relaxed) == w.target);
     assert!(REC.nfields.load(Relaxed) == w.fields.len());
     assert!(REC.nvalues.load(Relaxed) == w.fields.len());
-    let mut i = 0;
-    while i < w.fields.len() {
-        assert!(REC.field_h[i].load(Relaxed) == w.fields[i]);
-        assert!(REC.val_field_h[i].load(Relaxed) == w.fields[i]);
-        assert!(REC.val_kind[i].load(Relaxed) == vals[i].0);
-        assert!(REC.val[i].load(Relaxed) == vals[i].1);
-        i += 1;
+    macro_rules! one {
+        ($i:expr) => {
+            if $i < w.fields.len() {
+                assert!(REC.field_h[$i].load(Relaxed) == w.fields[$i]);
+                assert!(REC.val_field_h[$i].load(Relaxed) == w.fields[$i]);
+                assert!(REC.val_kind[$i].load(Relaxed) == vals[$i].0);
+                assert!(REC.val[$i].load(Relaxed) == vals[$i].1);
+            }
+        };
     }
+    one!(0);
+    one!(1);
+    one!(2);
+    one!(3);
+    one!(4);
+    one!(5);
+    assert!(w.fields.len() <= MAXF && vals.len() == w.fields.len());
     assert!(REC.parent_kind.load(Relaxed) == w.parent_kind);
     assert!(REC.depth_at_new.load(Relaxed) == 0);
     assert!(REC.records.load(Relaxed) == 0);
@@ -518,14 +544,23 @@ fn drive<F: Future>(f: F, max_polls: usize) -> (F::Output, usize) {
     let waker = unsafe { Waker::from_raw(RawWaker::new(core::ptr::null(), &WAKER_VT)) };
     let mut cx = Context::from_waker(&waker);
     let mut f = core::pin::pin!(f);
-    let mut polls = 0;
-    loop {
-        polls += 1;
-        assert!(polls <= max_polls);
-        if let Poll::Ready(x) = f.as_mut().poll(&mut cx) {
-            return (x, polls);
-        }
+    // straight-line: at most four polls
+    if let Poll::Ready(x) = f.as_mut().poll(&mut cx) {
+        return (x, 1);
     }
+    assert!(max_polls >= 2);
+    if let Poll::Ready(x) = f.as_mut().poll(&mut cx) {
+        return (x, 2);
+    }
+    assert!(max_polls >= 3);
+    if let Poll::Ready(x) = f.as_mut().poll(&mut cx) {
+        return (x, 3);
+    }
+    assert!(max_polls >= 4);
+    if let Poll::Ready(x) = f.as_mut().poll(&mut cx) {
+        return (x, 4);
+    }
+    panic!("future not ready after four polls")
 }
 
 // ================================================================== corpus
@@ -546,7 +581,7 @@ pub mod p01 {
 }
 
 #[kani::proof]
-#[kani::unwind(48)]
+#[kani::unwind(2)]
 #[kani::stub(std::rt::thread_cleanup, noop)]
 #[kani::stub(core::fmt::write, fmt_write_stub)]
 fn c17_a_p01() {
@@ -564,7 +599,7 @@ fn c17_a_p01() {
 }
 
 #[kani::proof]
-#[kani::unwind(48)]
+#[kani::unwind(3)]
 #[kani::stub(std::rt::thread_cleanup, noop)]
 #[kani::stub(core::fmt::write, fmt_write_stub)]
 fn c17_b_p01() {
@@ -585,6 +620,56 @@ fn c17_b_p01() {
     check_no_event();
     assert!(REC.asked.load(Relaxed) == if always { 0 } else { 1 });
     kani::cover!(always && b);
+    kani::cover!(!always && !b);
+}
+
+#[kani::proof]
+#[kani::unwind(3)]
+#[kani::stub(std::rt::thread_cleanup, noop)]
+#[kani::stub(core::fmt::write, fmt_write_stub)]
+fn c17_bt_p01() {
+    b_init();
+    let _ = p01::inst::f(0, false);
+    let always = b_arm_with(1, true);
+    let (a, b): (u8, bool) = kani::any();
+    let rp = p01::plain::f(a, b);
+    let ep = take();
+    reset_all();
+    let g = b_install();
+    let ri = p01::inst::f(a, b);
+    drop(g);
+    let ei = take();
+    assert!(rp == ri);
+    assert!(ep == ei);
+    check_span(&p01::WANT, &[(K_U64, a as u64), (K_BOOL, b as u64)], 1, 1);
+    check_no_event();
+    assert!(REC.asked.load(Relaxed) == if always { 0 } else { 1 });
+    kani::cover!(always && b);
+    
+}
+
+#[kani::proof]
+#[kani::unwind(3)]
+#[kani::stub(std::rt::thread_cleanup, noop)]
+#[kani::stub(core::fmt::write, fmt_write_stub)]
+fn c17_bf_p01() {
+    b_init();
+    let _ = p01::inst::f(0, false);
+    let always = b_arm_with(1, false);
+    let (a, b): (u8, bool) = kani::any();
+    let rp = p01::plain::f(a, b);
+    let ep = take();
+    reset_all();
+    let g = b_install();
+    let ri = p01::inst::f(a, b);
+    drop(g);
+    let ei = take();
+    assert!(rp == ri);
+    assert!(ep == ei);
+    check_span(&p01::WANT, &[(K_U64, a as u64), (K_BOOL, b as u64)], 1, 1);
+    check_no_event();
+    assert!(REC.asked.load(Relaxed) == if always { 0 } else { 1 });
+    
     kani::cover!(!always && !b);
 }
 
@@ -624,7 +709,7 @@ fn same_res(x: &Result<Mark, Mark>, y: &Result<Mark, Mark>) -> bool {
 }
 
 #[kani::proof]
-#[kani::unwind(48)]
+#[kani::unwind(2)]
 #[kani::stub(std::rt::thread_cleanup, noop)]
 #[kani::stub(core::fmt::write, fmt_write_stub)]
 fn c17_a_p12() {
@@ -645,7 +730,7 @@ fn c17_a_p12() {
 }
 
 #[kani::proof]
-#[kani::unwind(48)]
+#[kani::unwind(4)]
 #[kani::stub(std::rt::thread_cleanup, noop)]
 fn c17_b_p12() {
     b_init();
@@ -686,7 +771,7 @@ fn c17_b_p12() {
 // ---- a01: async fn, skip_all, leaf future pending n times
 pub mod a01 {
     use super::*;
-    twin! { [instrument(skip_all)]
+    twin! { [instrument(skip(n, a))]
         pub async fn f(n: u8, a: u8) -> u8 {
             fx(1);
             Leaf(n).await;
@@ -701,7 +786,7 @@ pub mod a01 {
 }
 
 #[kani::proof]
-#[kani::unwind(48)]
+#[kani::unwind(2)]
 #[kani::stub(std::rt::thread_cleanup, noop)]
 #[kani::stub(core::fmt::write, fmt_write_stub)]
 fn c17_a_a01() {
@@ -718,16 +803,11 @@ fn c17_a_a01() {
     kani::cover!(n == 2);
 }
 
-#[kani::proof]
-#[kani::unwind(48)]
-#[kani::stub(std::rt::thread_cleanup, noop)]
-#[kani::stub(core::fmt::write, fmt_write_stub)]
-fn c17_b_a01() {
+fn b_a01(n: u8) {
     b_init();
     let _ = drive(a01::inst::f(0, 0), 1);
-    let always = b_arm(1);
-    let (n, a): (u8, u8) = kani::any();
-    kani::assume(n <= 2);
+    let always = b_arm_with(1, true);
+    let a: u8 = kani::any();
     let (rp, pp) = drive(a01::plain::f(n, a), 3);
     let ep = take();
     reset_all();
@@ -735,18 +815,33 @@ fn c17_b_a01() {
     let (ri, pi) = drive(a01::inst::f(n, a), 3);
     drop(g);
     let ei = take();
-    assert!(rp == ri && pp == pi);
+    assert!(rp == ri && pp == pi && pi == n as usize + 1);
     assert!(ep == ei);
     // one enter/exit per poll, plus one around the drop of the inner future
     check_span(&a01::WANT, &[], pi + 1, 2);
     check_no_event();
-    kani::cover!(always && n == 0);
-    kani::cover!(!always && n == 2);
+    kani::cover!(always && a == 255);
+}
+
+#[kani::proof]
+#[kani::unwind(2)]
+#[kani::stub(std::rt::thread_cleanup, noop)]
+#[kani::stub(core::fmt::write, fmt_write_stub)]
+fn c17_b_a01_n0() {
+    b_a01(0)
+}
+
+#[kani::proof]
+#[kani::unwind(2)]
+#[kani::stub(std::rt::thread_cleanup, noop)]
+#[kani::stub(core::fmt::write, fmt_write_stub)]
+fn c17_b_a01_n2() {
+    b_a01(2)
 }
 
 /// vacuity twin: must FAIL
 #[kani::proof]
-#[kani::unwind(48)]
+#[kani::unwind(2)]
 #[kani::stub(std::rt::thread_cleanup, noop)]
 #[kani::stub(core::fmt::write, fmt_write_stub)]
 fn c17_reach() {
@@ -760,4 +855,163 @@ fn c17_reach() {
     if REC.new_spans.load(Relaxed) == 1 && FX_IN.load(Relaxed) == 1 && ri == 765 {
         assert!(false);
     }
+}
+
+pub mod dbg0 {
+    use super::*;
+    twin! { [instrument(skip(a))]
+        pub fn f(a: u8) -> u8 {
+            fx(1);
+            a.wrapping_add(1)
+        }
+    }
+    pub const WANT: Want = Want {
+        name: sh("f"), level: 3, target: sh(inst::TARGET),
+        fields: &[], values: &[], parent_kind: 0,
+    };
+}
+
+#[kani::proof]
+#[kani::unwind(2)]
+#[kani::stub(std::rt::thread_cleanup, noop)]
+#[kani::stub(core::fmt::write, fmt_write_stub)]
+fn c17_dbg0() {
+    b_init();
+    let _ = dbg0::inst::f(0);
+    let always = b_arm(1);
+    let a: u8 = kani::any();
+    let g = b_install();
+    let ri = dbg0::inst::f(a);
+    drop(g);
+    check_span(&dbg0::WANT, &[], 1, 1);
+}
+
+fn dbg1_span() -> tracing::Span {
+    tracing::span!(Level::INFO, "m")
+}
+
+#[kani::proof]
+#[kani::unwind(2)]
+#[kani::stub(std::rt::thread_cleanup, noop)]
+#[kani::stub(core::fmt::write, fmt_write_stub)]
+fn c17_dbg1() {
+    use tracing::Instrument;
+    b_init();
+    let _ = dbg1_span();
+    let always = b_arm_with(1, true);
+    let g = b_install();
+    let (r, p) = drive(Leaf(0).instrument(dbg1_span()), 1);
+    drop(g);
+    assert!(REC.new_spans.load(Relaxed) == 1);
+    assert!(REC.enters.load(Relaxed) == 2);
+    assert!(REC.exits.load(Relaxed) == 2);
+}
+
+#[kani::proof]
+#[kani::unwind(2)]
+#[kani::stub(std::rt::thread_cleanup, noop)]
+#[kani::stub(core::fmt::write, fmt_write_stub)]
+fn c17_dbg2() {
+    use tracing::Instrument;
+    b_init();
+    let _ = dbg1_span();
+    let always = b_arm_with(1, true);
+    let g = b_install();
+    let a: u8 = kani::any();
+    let (r, p) = drive(async move { fx(1); Leaf(0).await; fx(a as u32); a }.instrument(dbg1_span()), 1);
+    drop(g);
+    assert!(REC.new_spans.load(Relaxed) == 1);
+    assert!(REC.enters.load(Relaxed) == 2);
+    assert!(REC.exits.load(Relaxed) == 2);
+}
+
+async fn dbg3_f(a: u8) -> u8 {
+    use tracing::Instrument;
+    let span = dbg1_span();
+    let fut = async move { fx(1); Leaf(0).await; fx(a as u32); a };
+    if !span.is_disabled() {
+        fut.instrument(span).await
+    } else {
+        fut.await
+    }
+}
+
+#[kani::proof]
+#[kani::unwind(2)]
+#[kani::stub(std::rt::thread_cleanup, noop)]
+#[kani::stub(core::fmt::write, fmt_write_stub)]
+fn c17_dbg3() {
+    b_init();
+    let _ = dbg1_span();
+    let always = b_arm_with(1, true);
+    let g = b_install();
+    let a: u8 = kani::any();
+    let (r, p) = drive(dbg3_f(a), 1);
+    drop(g);
+    assert!(REC.new_spans.load(Relaxed) == 1);
+    assert!(REC.enters.load(Relaxed) == 2);
+    assert!(REC.exits.load(Relaxed) == 2);
+}
+
+async fn dbg4_f(a: u8) -> u8 {
+    use tracing::Instrument;
+    let span = dbg1_span();
+    let fut = async move { fx(1); Leaf(0).await; fx(a as u32); a };
+    fut.instrument(span).await
+}
+
+#[kani::proof]
+#[kani::unwind(2)]
+#[kani::stub(std::rt::thread_cleanup, noop)]
+#[kani::stub(core::fmt::write, fmt_write_stub)]
+fn c17_dbg4() {
+    b_init();
+    let _ = dbg1_span();
+    let always = b_arm_with(1, true);
+    let g = b_install();
+    let a: u8 = kani::any();
+    let (r, p) = drive(dbg4_f(a), 1);
+    drop(g);
+    assert!(REC.new_spans.load(Relaxed) == 1);
+    assert!(REC.enters.load(Relaxed) == 2);
+    assert!(REC.exits.load(Relaxed) == 2);
+}
+
+#[kani::proof]
+#[kani::unwind(2)]
+#[kani::stub(std::rt::thread_cleanup, noop)]
+#[kani::stub(core::fmt::write, fmt_write_stub)]
+fn c17_dbg5() {
+    b_init();
+    let _ = drive(a01::inst::f(0, 0), 1);
+    let always = b_arm_with(1, true);
+    let a: u8 = kani::any();
+    let g = b_install();
+    let (ri, pi) = drive(a01::inst::f(0, a), 3);
+    drop(g);
+    check_span(&a01::WANT, &[], pi + 1, 2);
+}
+
+/// warm-up for async callsites: first poll only (creates the span => first hit), then forget
+fn first_poll_then_forget<F: Future>(f: F) {
+    let waker = unsafe { Waker::from_raw(RawWaker::new(core::ptr::null(), &WAKER_VT)) };
+    let mut cx = Context::from_waker(&waker);
+    let mut f = core::mem::ManuallyDrop::new(f);
+    let p = unsafe { Pin::new_unchecked(&mut *f) };
+    let _ = p.poll(&mut cx);
+}
+
+#[kani::proof]
+#[kani::unwind(2)]
+#[kani::stub(std::rt::thread_cleanup, noop)]
+#[kani::stub(core::fmt::write, fmt_write_stub)]
+fn c17_dbg6() {
+    b_init();
+    first_poll_then_forget(a01::inst::f(1, 0));
+    let always = b_arm_with(1, true);
+    let a: u8 = kani::any();
+    let g = b_install();
+    let (ri, pi) = drive(a01::inst::f(0, a), 3);
+    drop(g);
+    check_span(&a01::WANT, &[], pi + 1, 2);
 }
